@@ -180,6 +180,18 @@ CLAIMED = {
              "byte equality. Judged with keepEmptyRules=True/resolveVariables=False where the defaults are documented lossy. "
              "Ten known findings in three root-cause classes (identifiers with non-name characters are serialised unescaped; "
              "quoted content with an escaped backslash; url with control character)."),
+    "C04": dict(
+        technique="TLA+ damage generator (Damage.tla: garbage token sequences filtered by the TLA+ predicates Balanced / LooksLikeDecl / "
+                  "ValidSelectorish, injection points, misplaced at-rules, truncation rows; vacuity guard GarbageNonTrivial) and "
+                  "contract (DamageContract: DOM(damaged) = AST(base), complete rules/declarations are a prefix); rendered and parsed "
+                  "by the adapter with a mark-recording renderer; TLC trace monitor",
+        text="Bounded exhaustive: every balanced garbage sequence of <=2 (quick) / <=3 (thorough) tokens over 17 token kinds as malformed "
+             "declaration at every declaration boundary (top level and inside @media), as rule with invalid selector and as unknown "
+             "at-rule in statement and block form at every statement boundary, 7 misplaced at-rules x 6 base sheets, and every prefix "
+             "of the 6 rendered base sheets (style, @media, @page with margin box, @font-face, @import/@namespace preamble).",
+        design_ref="DESIGN.md section 5 C04",
+        note="Trusted: TLC, the renderer's offset marks (which rules/declarations are complete before a cut), the projection. The inserted "
+             "construct itself may or may not appear in the DOM."),
 }
 PENDING = "check not built yet in this round (see DESIGN.md section 10 build order); no claim is made"
 NOT_APPLICABLE = {}
